@@ -23,6 +23,7 @@ type SolveResult struct {
 	File     string
 	PerSolver map[string]string
 	Bytes    int
+	Values   string
 }
 
 type solverDef struct {
